@@ -309,10 +309,12 @@ def make_stub(sig, rtype, contract, unit):
         if mo and mo.group(1) == "whole":
             lines.append("  __CPROVER_havoc_object((void *)(%s));" % mo.group(2))
         elif mo and mo.group(1) == "upto":
+            # a slice of symbolic length is havocked as the whole object: a sound over-approximation of the frame (CBMC's
+            # havoc_slice with a symbolic size exhausted the solver's memory, probed)
             ptr, n = _split_top(mo.group(2))
-            lines.append("  __CPROVER_havoc_slice((void *)(%s), %s);" % (ptr, n))
+            lines.append("  __CPROVER_havoc_object((void *)(%s));" % ptr)
         elif mo:
-            lines.append("  __CPROVER_havoc_slice((void *)(%s), __CPROVER_OBJECT_SIZE(%s) - __CPROVER_POINTER_OFFSET(%s));" % (mo.group(2), mo.group(2), mo.group(2)))
+            lines.append("  __CPROVER_havoc_object((void *)(%s));" % mo.group(2))
         elif a:
             lines.append("  __CPROVER_havoc_slice((void *)&(%s), sizeof(%s));" % (a, a))
     if rtype and rtype != "void":
@@ -362,6 +364,8 @@ def slice_unit(name, u, outdir, manifest):
         text = apply_rules(raw, rules, fired)
     elif kind == "func":
         op = src.index("(", mo.start()) if "(" in mo.group(0) else src.index("(", mo.end() - 1)
+        for _ in range(u.get("paren_skip", 0)):      # e.g. `operator()(args)`: the parameter list is the second parenthesis
+            op = src.index("(", _scan(src, op, "(", ")") + 1)
         cp = _scan(src, op, "(", ")")
         ob = _skip_ws_comments(src, cp + 1)
         # skip trailing qualifiers (const / noexcept) of member functions
